@@ -36,6 +36,8 @@ with ThreadPoolExecutor(max_workers=6) as ex:
         if det is None:
             print(name, "patch no longer applies"); continue
         m["detected_by"] = sorted(det)
+        # sensitivity obligations: the target property if it reports the variant, else the checks that do
+        m["properties"] = [m["property"]] if m["property"] in det else sorted(det)
         m["rules"] = det
         json.dump(m, open(mp, "w"), indent=1)
         own = m["property"] in det
